@@ -464,15 +464,18 @@ class Ks0Compiler(engines.engine.Engine, CompilerMixin):
             normalized_problem = quantifiers_result.problem
             normalization_results.append(quantifiers_result)
 
-        if normalized_problem.kind.has_disjunctive_conditions():
-            disjunction_remover = DisjunctiveConditionsRemover()
-            disjunction_remover.skip_checks = True
-            disjunction_result = disjunction_remover.compile(
-                normalized_problem, CompilationKind.DISJUNCTIVE_CONDITIONS_REMOVING
-            )
-            assert isinstance(disjunction_result.problem, Problem)
-            normalized_problem = disjunction_result.problem
-            normalization_results.append(disjunction_result)
+        # Always run the disjunctive-conditions remover: the DISJUNCTIVE_CONDITIONS
+        # kind flag is syntactic (Or / Implies), while conditions such as
+        # `not (a and b)` or `a iff b` are disjunctive too and must be brought
+        # to conjunctions of literals.
+        disjunction_remover = DisjunctiveConditionsRemover()
+        disjunction_remover.skip_checks = True
+        disjunction_result = disjunction_remover.compile(
+            normalized_problem, CompilationKind.DISJUNCTIVE_CONDITIONS_REMOVING
+        )
+        assert isinstance(disjunction_result.problem, Problem)
+        normalized_problem = disjunction_result.problem
+        normalization_results.append(disjunction_result)
 
         # prune_actions=False: this problem's declared initial values are just
         # placeholders (the real semantics come from the possible_initial_states
